@@ -33,21 +33,25 @@ Proof. exact project_onto_tr_props. Qed.
 Theorem C05_spg_update_feasible : forall bs xNew p alpha, in_box bs xNew -> in_box bs p -> 0 <= alpha <= 1 ->
   in_box bs (@spg_update R NumR xNew p alpha).
 Proof. exact spg_update_feasible. Qed.
-Theorem C05_spg_alpha_in_unit_interval_nonmonotone : forall ds sBs q qMax, q <= qMax ->
-  0 <= @spg_alpha R NumR true ds sBs q qMax <= 1.
-Proof. exact spg_alpha_range_nonmonotone. Qed.
-Theorem C05_spg_alpha_in_unit_interval_monotone_partial : forall ds sBs q qMax, ds <= 0 ->
-  0 <= @spg_alpha R NumR false ds sBs q qMax <= 1.
-Proof. exact spg_alpha_range_monotone. Qed.
-(* ... and without that hypothesis the monotone rule does produce negative step lengths (finding F12: infeasible iterates) *)
+(* the step length actually used (clipped, repo commit d722144) is in [0,1] for every line-search value, both modes *)
+Theorem C05_spg_alpha_in_unit_interval : forall nm ds sBs q qMax, 0 <= @spg_alpha R NumR nm ds sBs q qMax <= 1.
+Proof. exact spg_alpha_range. Qed.
+Theorem C05_spg_step_feasible : forall bs xNew p nm ds sBs q qMax, in_box bs xNew -> in_box bs p ->
+  in_box bs (@spg_update R NumR xNew p (@spg_alpha R NumR nm ds sBs q qMax)).
+Proof. exact spg_step_feasible. Qed.
+(* remarks about the regenerated line-search kernels themselves: the non-monotone one is >= 0 when q <= qMax; the
+   monotone one can be negative (the mechanism of finding F12, repaired by the clip) *)
+Theorem C05_nonmonotone_kernel_nonneg : forall ds sBs q qMax, 0 < sBs -> q <= qMax ->
+  0 <= @nonmonotone_line_search R NumR ds sBs q qMax 0.
+Proof. exact nonmonotone_kernel_nonneg. Qed.
 Theorem C05_monotone_alpha_can_be_negative_refuted :
-  exists ds sBs q qMax, 0 < sBs /\ q <= qMax /\ @spg_alpha R NumR false ds sBs q qMax < 0.
+  exists ds sBs q qMax, 0 < sBs /\ q <= qMax /\ @kouri_exact_line_search R NumR ds sBs q qMax 0 < 0.
 Proof. exact monotone_alpha_negative. Qed.
 (* NOT PROVED: "every iterate is feasible" as ONE theorem about the whole solver: find_generalized_cauchy_point and the SPG
-   loop (qHistory, spectral step) are not modelled; the three theorems above are the pieces of the convex-combination
-   argument (Cauchy point = projection; updates = convex combinations; alpha in [0,1]).  In monotone mode alpha >= 0 needs
-   d.s <= 0, which is a hypothesis here (not evident for project_onto_tr, see DESIGN C05).  Feasibility of every reported
-   iterate is checked on the implementation by the harness (L2, 4 ulp slack) -- a test. *)
+   loop (qHistory, spectral step) are not modelled; the theorems above are the pieces of the convex-combination argument
+   (Cauchy point = projection; updates = convex combinations; clipped alpha in [0,1]).  The clip expression is hand-modelled
+   (clip01) and matched syntactically against the source by the harness.  Feasibility of every reported iterate is checked
+   on the implementation by the harness (L2, 4 ulp slack) -- a test. *)
 
 (* outer loop, ARBITRARY value/gradient oracles and ARBITRARY step proposals: descent on accepted iterates (default mode,
    eta1 >= 0), flag = true only at a ConvergedAt event at the returned point whose projected-gradient measure is < tol,
@@ -81,6 +85,6 @@ Proof. exact example_box. Qed.
 
 Print Assumptions C05_project_nearest.
 Print Assumptions C05_project_tr_in_both.
-Print Assumptions C05_spg_alpha_in_unit_interval_nonmonotone.
+Print Assumptions C05_spg_step_feasible.
 Print Assumptions C05_trace_properties.
 Print Assumptions C05_convex_pg_zero_is_min.
